@@ -32,6 +32,7 @@ def check(ctx, run):
     lossy = to_bits = False
     formula_ok = None
     rank_ok = True
+    rank_unread = None
     string_raw = False
     n_paths = 0
     for q in paths:
@@ -61,7 +62,12 @@ def check(ctx, run):
                       g('TRUE_TAG'): g('TRUE_LEVEL'), g('FALSE_TAG'): g('FALSE_LEVEL')}
                 kinds_eq = [c[2] for c in tc if c[1] == 'eq']
                 const_ok = const_of(second) is not None and kinds_eq and lv.get(kinds_eq[-1]) == const_of(second)
-                rank_ok = rank_ok and (is_call(second, 'functions::jentry_compare_level') or bool(const_ok))
+                if is_call(second, 'functions::jentry_compare_level') or bool(const_ok):
+                    pass
+                elif second[0] == 'call' and const_of(second) is None and any(s_[0] in ('init', 'hav', 'field') for a_ in second[2] for s_ in subterms(a_)):
+                    rank_unread = canon(second[1]).split('::')[-1]      # the rank comes from a helper this rule does not know by name
+                else:
+                    rank_ok = False
         for e in pushes[2:]:
             v = deref_all(e[2][1])
             if is_call(v, 'Index::index'):
@@ -89,8 +95,12 @@ def check(ctx, run):
             for o in (s['rv']['a'], s['rv']['b']):
                 if o['k'] == 'const' and o.get('val') == 0x80:
                     flip = True
-    (run.proved if rank_ok else run.violation)('R14.2', b.path, 'rank-bytes', 'depth byte, then jentry_compare_level / ARRAY_LEVEL / OBJECT_LEVEL by header kind' if rank_ok else
-                                                'the bytes that prefix an element are not (depth, rank as used by compare)', loc)
+    if rank_ok and rank_unread:
+        run.undecided('R14.2', b.path, 'rank-bytes', f'the rank byte of a scalar is computed by {rank_unread}(), which this rule does not know by name (R04.1 checks that compare and the key '
+                      'use the same rank function when it can identify it): not decided', loc)
+    else:
+        (run.proved if rank_ok else run.violation)('R14.2', b.path, 'rank-bytes', 'depth byte, then jentry_compare_level / ARRAY_LEVEL / OBJECT_LEVEL by header kind' if rank_ok else
+                                                    'the bytes that prefix an element are not (depth, rank as used by compare)', loc)
     if formula_ok and flip:
         run.proved('R14.5', b.path, 'float-image', 'v = s ^ (((s >> 63) as u64) >> 1), sign byte ^ 0x80: monotone map of the f64 bits', loc)
     elif formula_ok is None:
@@ -118,7 +128,13 @@ def check(ctx, run):
         if bb_ is None:
             run.undecided('R14.6', fn, 'appends', 'function not found (anchor lost)')
             continue
-        direct = [canon(callee_name(t)) for _, t in bb_.calls() if called(callee_name(t), 'Vec::push', 'Vec::extend_from_slice', 'WriteBytesExt::write_u32')]
+        def on_bytes(t_):
+            # the receiver is a byte buffer (the key under construction), not some other local vector
+            a0 = (t_.get('args') or [None])[0]
+            if not a0 or a0.get('k') not in ('copy', 'move'):
+                return True
+            return 'Vec<u8>' in str(bb_.local_ty(a0['place']['local']).get('s', ''))
+        direct = [canon(callee_name(t)) for _, t in bb_.calls() if called(callee_name(t), 'Vec::push', 'Vec::extend_from_slice', 'WriteBytesExt::write_u32') and on_bytes(t)]
         via = [t for _, t in bb_.calls() if called(callee_name(t), 'functions::scalar_convert_to_comparable')]
         want = 1 if fn.endswith('array_convert_to_comparable') else 2
         ok = not direct and len(via) == want
